@@ -143,7 +143,7 @@ func cmdCheck(prop, tier string) int {
 		return fatal2("build from %s failed:\n%v", repoDir, err)
 	}
 	kf := loadKnown()
-	env := &check.Env{Bins: &world.Bins{Bin: bres.Bin, RaceBin: bres.RaceBin, Sources: bres.Sources}, Base: scratch, Known: kf.classifyAny}
+	env := &check.Env{Bins: &world.Bins{Bin: bres.Bin, RaceBin: bres.RaceBin, Sources: bres.Sources}, Base: scratch, Known: kf.classifyAny, Prop: prop}
 	fmt.Printf("simdrive: property %s tier %s seed %d: built world binaries from %s in %.1fs (%d import rewrites)\n", prop, tier, seed, repoDir, time.Since(start).Seconds(), bres.Rewrites)
 
 	agg := newAgg(prop, tier, seed)
@@ -222,6 +222,10 @@ func cmdCheck(prop, tier string) int {
 				close(stop)
 			}
 			continue
+		}
+		for _, cv := range r.out.Cross {
+			cross = append(cross, result{r.idx, r.w, &check.Outcome{Viol: cv}})
+			break
 		}
 		if v := r.out.Viol; v != nil {
 			if v.Has(prop) {
